@@ -462,7 +462,14 @@ func (p *Packer) Unpack(r io.Reader, dst string) error {
 
 		// Handle symlinks, directories, non-regular files
 		if info.IsSymlink() {
-			if ok, err := p.validSymlink(dst, header.Name, header.Linkname); ok {
+			// The target is judged from where the link is really created,
+			// which is not what the raw header name says when that has a
+			// leading slash.
+			linkPath, err := filepath.Rel(dst, info.Path)
+			if err != nil {
+				return &IllegalSlugError{Err: err}
+			}
+			if ok, err := p.validSymlink(dst, linkPath, header.Linkname); ok {
 				// Create the symlink.
 				if err = os.Symlink(header.Linkname, info.Path); err != nil {
 					return fmt.Errorf("failed creating symlink (%q -> %q): %w",
